@@ -304,6 +304,16 @@ class RelEval:
                 return self.ev(fn.value, env, at)
             if len(e.args) == 1 and not e.keywords and self.leaf_helper_of(e, self.f):
                 return _ext(self.ev(e.args[0], env, at), 'leaves')
+            if len(e.args) == 1 and not e.keywords:
+                hp = self.helper_paths(e)
+                if hp is not None:
+                    base_p = self.ev(e.args[0], env, at)
+                    out: Paths = {}
+                    for k1, c1 in base_p.items():
+                        for k2, c2 in hp.items():
+                            both = list(UNCOND) if unconditional(c1) and unconditional(c2) else [x | y for x in c1 for y in c2]
+                            out = _union(out, {k1 + k2: both})
+                    return out
         raise Unknown(e, f"collection expression `{src(e)[:80]}` is not a relation / list idiom the rule understands")
 
     def _apply_cond(self, test: ast.AST, pol: bool, env: Dict[str, Paths]) -> list:
@@ -335,6 +345,31 @@ class RelEval:
                 if pre:
                     res = _discharge(res, text, pre)
         return res
+
+    # ---- helpers of the same module that build a task collection from one task parameter
+    _HELPER_BUSY: Set[str] = set()
+
+    def helper_paths(self, call: ast.Call) -> Optional[Paths]:
+        resolve = getattr(self.leaf_helper_of, 'resolve', None)
+        h = resolve(call, self.f) if resolve else None
+        if h is None or h.module is not self.f.module or isinstance(h.node, ast.Lambda) or h.qual == self.f.qual:
+            return None
+        params = [p for p in h.params if p != h.self_name and p != 'cls']
+        if len(params) != 1 or h.qual in RelEval._HELPER_BUSY:
+            return None
+        RelEval._HELPER_BUSY.add(h.qual)
+        try:
+            sub = RelEval(self.ctx, h, params[0], self.leaf_helper_of)
+            cfg = cfg_of(h)
+            rets = [n for n in walk_no_nested(h.node) if isinstance(n, ast.Return) and n.value is not None]
+            if not rets:
+                return None
+            total: Paths = {}
+            for r in rets:
+                total = _union(total, sub.contribution(cfg.node_of(r), r.value, None))
+            return total
+        finally:
+            RelEval._HELPER_BUSY.discard(h.qual)
 
     # ---- local collection variables
     def var(self, name: str, at, node) -> Paths:
@@ -440,6 +475,14 @@ def recognise_fold(ctx, f: Func, store_stmt: ast.stmt, value: ast.AST) -> Fold:
     fo = Fold()
     fo.store = store_stmt
     sn = cfg.node_of(store_stmt)
+    # `D if acc is None else acc` / `acc if acc is not None else D`: the sink value as a conditional expression
+    if isinstance(value, ast.IfExp):
+        nt = none_test(value.test, True)
+        if nt and isinstance(nt[0], ast.Name):
+            when_none, other = (value.body, value.orelse) if nt[1] else (value.orelse, value.body)
+            if isinstance(other, ast.Name) and other.id == nt[0].id:
+                fo.default = ex.expand(when_none, sn)
+                value = other
     if not isinstance(value, ast.Name):
         v = ex.expand(value, sn)
         return _fold_expr(v, fo, value)
@@ -466,6 +509,22 @@ def recognise_fold(ctx, f: Func, store_stmt: ast.stmt, value: ast.AST) -> Fold:
         conds = [(t, p) for t, p in cfg.conditions(d.node)]
         if fors and fors[-1] is loop:
             val = ex.expand(d.value, d.node, stop={acc})
+            # `T if acc is None else op(acc, T)`: first element and fold in one conditional expression
+            if isinstance(val, ast.IfExp):
+                nt = none_test(val.test, True)
+                if nt and isinstance(nt[0], ast.Name) and nt[0].id == acc:
+                    first_v, rest_v = (val.body, val.orelse) if nt[1] else (val.orelse, val.body)
+                    mm = None
+                    for opn in ('max', 'min'):
+                        mm = match(f"{opn}({acc}, $t)", rest_v) or match(f"{opn}($t, {acc})", rest_v)
+                        if mm:
+                            if not same(mm['t'], first_v):
+                                raise Unknown(d.stmt, "first-element term differs from the folded term")
+                            _set_op(fo, opn, mm['t'], d.stmt)
+                            break
+                    if mm:
+                        fo.defs.append(d.node)
+                        continue
             m = None
             for opn in ('max', 'min'):
                 m = match(f"{opn}({acc}, $t)", val) or match(f"{opn}($t, {acc})", val)
